@@ -137,9 +137,22 @@ func probe(kind string, opcode int, bcast bool, nm uint16, preRegisterR bool, in
 	// connection the server closes on the offending packet ends the wait at once), then a fresh client asks again.
 	c.send(req{ID: 0x5151, Opcode: opcode, Bcast: bcast, NM: nm, Resp: true, QName: "QNAME", RRName: "RNAME", RRIP: ipB}.bytes(), nil)
 	resolvable(c, 0x5152, "QNAME", ipA)
-	c2, err2 := dial(srv)
-	if err2 == nil {
-		o.serverStillAlive = resolvable(c2, 150, "QNAME", ipA)
+	// "dead" is a verdict about the server, not about how fast this machine is: a fresh client asks up to three
+	// times, each on a connection of its own and with two seconds for the reply, before the server is given up
+	var c2 *client
+	for try := 0; try < 3 && !o.serverStillAlive; try++ {
+		cn, err2 := dial(srv)
+		if err2 != nil {
+			continue
+		}
+		if c2 != nil {
+			c2.close()
+		}
+		c2 = cn
+		p, ok := c2.exchange(req{ID: uint16(150 + try), Opcode: 0, QName: "QNAME"}, 2*time.Second)
+		o.serverStillAlive = ok && p.Answers > 0 && p.hasAddr(ipA) && p.Rcode == 0
+	}
+	if c2 != nil {
 		c2.close()
 	}
 	o.neverSent = append(o.neverSent, neverSent(old, c, c2)...)
